@@ -376,7 +376,10 @@ impl ExecutableContent for If {
         let r = datamodel
             .execute_condition(&self.condition)
             .unwrap_or_else(|e| {
+                // W3C: a condition that can't be evaluated counts as 'false' and
+                // error.execution is placed in the internal event queue.
                 warn!("Condition {} can't be evaluated. {}", self.condition, e);
+                datamodel.internal_error_execution();
                 false
             });
         if r {
